@@ -1278,6 +1278,18 @@ size_t simrt_drain_states(uint64_t* out, size_t cap)
     return n;
 }
 
+static std::atomic<int> g_tsan_reports{0};
+
+__attribute__((used, visibility("default"))) void __tsan_on_report(void*)
+{
+    g_tsan_reports.fetch_add(1, std::memory_order_relaxed);
+}
+
+int simrt_tsan_reports(void)
+{
+    return g_tsan_reports.load(std::memory_order_relaxed);
+}
+
 static int g_watchdog_seconds = 0;
 
 static void* watchdog_main(void*)
